@@ -47,7 +47,10 @@ def run(ctx):
     lines, metas = [], []
     for idx, (cls, qn, hdr, blocking, fl) in rsp:
         nopts = sum(1 for p in cls.schema if p.optional)
-        for rep in range(ctx.scale(2, 12)):
+        special = nopts > 0 or any(d[0] == "greedy" for (n, d, o, ev) in fl)
+        # the few classes with optional trailing parameters / a trailing greedy list get many more values: every
+        # combination of "which optional parameters are present" x list lengths matters there
+        for rep in range(ctx.scale(2, 12) * (10 if special else 1)):
             for status in (0, 1, 24):
                 base = gen.gen_cmd(cls, r, nopt=r.randrange(nopts + 1))
                 kw = {p.name: getattr(base, p.name) for p in cls.schema if getattr(base, p.name) is not None}
@@ -83,8 +86,12 @@ def run(ctx):
         if a is not None and a != impl:
             ctx.mismatch("dec", inp, a, impl)
         params = [p for p in cls.schema if getattr(cmd, p.name) is not None]
+        # a trailing greedy list takes whole elements: only a cut / surplus that is not a whole number of elements is "cut
+        # short" / "surplus" there (reading 8.3)
+        item = getattr(getattr(cls.schema[-1].type, "_item_type", None), "_size", None) if greedy_schema else None
         if k > len(payload):
-            if not greedy_schema and back is not None:
+            mid_element = greedy_schema and item and getattr(cmd, cls.schema[-1].name) is not None and (k - len(payload)) % item != 0
+            if (not greedy_schema or mid_element) and back is not None and not (status != 0 and back._partial):
                 ctx.counterexample("surplus-accepted", inp, "rejected", impl, "a response followed by surplus bytes is delivered")
             continue
         if k == len(payload):
@@ -99,7 +106,12 @@ def run(ctx):
         complete = [p for p, b in zip(params, bounds[1:]) if b <= k]
         at_boundary = k in bounds
         if greedy_last and k >= bounds[len(params) - 1]:
-            continue     # inside the trailing greedy list: bytes are list elements (reading 8.3)
+            # inside the trailing greedy list: a whole number of elements is a valid (shorter) list (reading 8.3); a cut in
+            # the middle of an element is a cut-short response
+            if item and (k - bounds[len(params) - 1]) % item != 0 and status == 0 and back is not None:
+                ctx.counterexample("zero-status-cut-accepted", inp, "rejected", impl,
+                                   "a status-zero response cut in the middle of a list element is delivered")
+            continue
         if status != 0:
             if back is None or not back._partial and not at_boundary:
                 ctx.counterexample("failure-not-delivered", inp, "partial command with the status", impl,
